@@ -93,7 +93,9 @@ def match_type(type1: etree.QName, type2: etree.QName) -> bool:
     return type1.namespace == type2.namespace and type1.localname == type2.localname
 
 
-def _is_type_in_list(ttype: etree.QName, types: list[etree.QName]) -> bool:
+def _is_type_in_list(ttype: etree.QName, types: list[etree.QName] | None) -> bool:
+    if types is None:
+        return False
     return any(match_type(ttype, entry) for entry in types)
 
 
